@@ -82,11 +82,8 @@ public:
     const auto & y = static_cast<const _Derived &>(*this).coeffs().x();
 
     using std::atan2;
-    if (y <= 0.) {
-      return atan2(y, x);
-    } else {
-      return atan2(-y, -x) - Scalar(M_PI);
-    }
+    const Scalar a = atan2(y, x);  // in [-pi, pi]
+    return a <= Scalar(0) ? a : a - Scalar(2 * M_PI);
   }
 
   /**
@@ -98,11 +95,8 @@ public:
     const auto & y = static_cast<const _Derived &>(*this).coeffs().x();
 
     using std::atan2;
-    if (y >= 0.) {
-      return atan2(y, x);
-    } else {
-      return Scalar(M_PI) + atan2(-y, -x);
-    }
+    const Scalar a = atan2(y, x);  // in [-pi, pi]
+    return a >= Scalar(0) ? a : a + Scalar(2 * M_PI);
   }
 
   /**
